@@ -47,6 +47,26 @@ class RuleGen:
         leaves = [l for l in cond.leaves() if (l.args or l.kwargs)]
         if not leaves:
             return cond
+        # a path as an ITEM of a list argument / a VALUE of a mapping argument (resolved like a whole argument)
+        nested = [(l, i) for l in leaves for i, a in enumerate(l.args) if isinstance(a, (list, dict)) and a
+                  and not (isinstance(a, list) and any(isinstance(x, type) for x in a))]
+        if nested and self.r.random() < 0.35:
+            l, i = self.r.choice(nested)
+            a = l.args[i]
+            k = self.r.randrange(len(a)) if isinstance(a, list) else self.r.choice(list(a))
+            lit = a[k]
+            if self.plantable(lit):
+                if isinstance(doc, dict):
+                    key = "_item" if "_item" not in doc else "_item2"
+                    doc[key] = copy_value(lit)
+                    p = PathT([Prim(key)])
+                else:
+                    doc.append(copy_value(lit))
+                    p = PathT([Prim(len(doc) - 1)])
+                a = copy_value(a) if not isinstance(a, dict) else dict(a)
+                a[k] = p
+                l.args[i] = a
+                return cond
         l = self.r.choice(leaves)
         p = self.pg.path(doc, max_len=2, mods_p=0.5)
         pos = bool(l.args and (not l.kwargs or self.r.random() < 0.6))
